@@ -150,6 +150,11 @@ def units(tier):
         out += [("sweep-dates", "date", k) for k in range(64)]
         out += [("sweep-offsets", "datetime+time", k) for k in range(8)]
         out += [("sweep-seconds", "time", k) for k in range(16)]
+    else:
+        # quick: complete sweep of the offsets, 1/8 of the dates and 1/4 of the seconds of day
+        out += [("sweep-dates", "date", k) for k in range(0, 64, 8)]
+        out += [("sweep-offsets", "datetime+time", k) for k in range(8)]
+        out += [("sweep-seconds", "time", k) for k in range(0, 16, 4)]
     return out
 
 
@@ -158,7 +163,7 @@ def meta(tier):
         "rule": "clauses (a) canonical text parse-back in five carriers for every scalar leaf over the extended alphabets A+, (b) emitted ISO-8601 text read by an independent reader, "
         "(c) numbers -> temporals as epoch seconds in UTC, (d) temporals -> numbers by the inverse reading (admissible: exact rational seconds or the nearest double), "
         "(e) temporals -> str/bytes, (f) cache-warming twins (equal but differently represented values first); (c),(d) under four process time zones; "
-        + ("thorough adds complete sweeps: all 3 652 059 dates, all 2 879 whole-minute offsets, all 86 400 seconds of day x {0, 1, 999999} us; " if tier == "thorough" else "")
+        + ("complete sweeps: all 3 652 059 dates, all 2 879 whole-minute offsets, all 86 400 seconds of day x {0, 1, 999999} us; " if tier == "thorough" else "sweeps: all 2 879 whole-minute offsets, every 8th date of 0001..9999, every 4th second of day x {0, 1, 999999} us; ")
         + "non-trivial = the call returned; distinct by (clause, type, value, carrier, outcome)",
         "bounds": {"time_zones": TZS, "tier": tier},
         "assumptions": ["cold state per unit", "verdicts never depend on today's date (time-only inputs are judged on time of day and offset)"],
